@@ -135,6 +135,15 @@ func (c *Ctx) evalSpec(env *SpecEnv, e *SExpr) Value {
 			specError("bad integer literal %s", e.Name)
 		}
 		return UntypedInt{V: v}
+	case "float":
+		r, ok := new(big.Rat).SetString(e.Name)
+		if !ok {
+			specError("bad float literal %s", e.Name)
+		}
+		if c.FP {
+			return TS.intern(&Term{Op: "fplit", Sort: FPSort, Name: ratSMT(r)})
+		}
+		return RealC(r)
 	case "char":
 		r := []rune(e.Name)
 		return UntypedInt{V: big.NewInt(int64(r[0]))}
@@ -950,10 +959,11 @@ func (c *Ctx) specQuant(env *SpecEnv, e *SExpr) Value {
 	var facts []*Term
 	for _, t := range st.PC[len(savePC):] {
 		if t.open {
-			facts = append(facts, t)
-		} else {
-			defer st.assume(t)
+			// type-range facts about reads at bound indices: dropped (not needed inside quantified bodies,
+			// and they must not become proof obligations of an existential claim)
+			continue
 		}
+		defer st.assume(t)
 	}
 	st.PC, st.pcSeen = savePC, saveSeen
 	if e.Op == "forall" {
@@ -1008,9 +1018,12 @@ func (c *Ctx) specCall(env *SpecEnv, e *SExpr) Value {
 			case *Term:
 				if x.Sort.Kind == SInt {
 					if c.FP {
-						return mk("i2fp", FPSort, x)
+						return I2FP(x)
 					}
 					return mk("to_real", RealSort, x)
+				}
+				if x.Sort.Kind == SBV && c.FP {
+					return I2FP(BVResize(x, 64, c.specSigned(env, e.Args[1])))
 				}
 				return x
 			}
@@ -1055,6 +1068,34 @@ func (c *Ctx) specCall(env *SpecEnv, e *SExpr) Value {
 				return Eq(ha.Ref, IntC(0))
 			}
 			return False()
+		case "purecall":
+			// purecall("Color.RGB", i, args...): the i-th result of a function whose contract is marked `pure`
+			if len(e.Args) < 3 || e.Args[1].Kind != "str" || e.Args[2].Kind != "int" {
+				specError("purecall(\"Key\", index, args...)")
+			}
+			key := env.pkg + "." + e.Args[1].Name
+			sp := c.Eng.Specs.Funcs[key]
+			if sp == nil || !sp.Pure {
+				specError("purecall: %s has no contract marked pure", key)
+			}
+			fn := c.Eng.FindFunc(key)
+			if fn == nil {
+				specError("purecall: function %s not found", key)
+			}
+			idx, _ := strconv.Atoi(e.Args[2].Name)
+			var ts []*Term
+			for i, a := range e.Args[3:] {
+				v := c.evalSpec(env, a)
+				if u, ok := v.(UntypedInt); ok {
+					v = c.untypedTo(u, c.sortOfBasic(fn.Params[i].Type()))
+				}
+				t, ok := v.(*Term)
+				if !ok {
+					specError("purecall arguments must be scalars")
+				}
+				ts = append(ts, t)
+			}
+			return c.pureApp(key, fn.Signature, idx, ts)
 		case "has":
 			evalArgs()
 			m, ok := args[0].(MapV)
